@@ -3,7 +3,7 @@
 (* behaviours), judged by TLC: every log node is one TLC state; C01/C02/C03/C09/C10 formulas are evaluated *)
 (* on the recorded (pre-state, step, post-state) triples; Conf_* compare the step with the specification's *)
 (* action operators (VaultSpec.tla).                                                                        *)
-EXTENDS Harbor, VaultSpec, DutchV1, Sweep, TLC, Json
+EXTENDS Harbor, VaultSpec, DutchV1, Esm, Sweep, TLC, Json
 CONSTANT LogFile
 Log == ndJsonDeserialize(LogFile)
 NLog == Len(Log)
@@ -57,12 +57,16 @@ C01TotalsMinted(i) == LET nd == Nd(i) C == Cfg(nd) IN \A p \in Range(C.prods) :
    LET T(S) == OpenMinted(S, p.id) + AwaitingDebt(S, p.id) + V1AwaitingMinted(S, p.id) IN
    IF IsRoot(nd) THEN TotOf(Post(nd), p.id).minted = T(Post(nd))
    ELSE TotOf(Post(nd), p.id).minted - TotOf(Pre(nd), p.id).minted = T(Post(nd)) - T(Pre(nd))
-C01TotalsIds(nd) == \A p \in Range(Cfg(nd).prods) : Range(TotOf(Post(nd), p.id).ids) = OpenIds(Post(nd), p.id)
+(* published id list = ids of the open vaults of the product; step form: a step must not create (or change) a discrepancy *)
+IdsOff(S, pid) == <<Range(TotOf(S, pid).ids) \ OpenIds(S, pid), OpenIds(S, pid) \ Range(TotOf(S, pid).ids)>>
+C01TotalsIds(nd) == \A p \in Range(Cfg(nd).prods) :
+   IF IsRoot(nd) THEN IdsOff(Post(nd), p.id) = <<{}, {}>> ELSE IdsOff(Post(nd), p.id) = IdsOff(Pre(nd), p.id)
 
 (* ------------------------------------ C02 ------------------------------------ *)
-(* recorded principal: open vaults, stable-mint vaults, vaults awaiting auction (V2: ghost, the record keeps the whole debt; V1: LockedVault.AmountOut) *)
-P2(i, S) == AllPrincipal(S) + AwaitingPrincipal(i, S, 0) + V1AwaitingPrincipal(S)
-P2Pre(i) == AllPrincipal(Pre(Nd(i))) + AwaitingPrincipalPre(i, 0) + V1AwaitingPrincipal(Pre(Nd(i)))
+(* recorded principal: open vaults, stable-mint vaults, vaults awaiting auction (V2: ghost, the record keeps the whole debt; V1: LockedVault.AmountOut), *)
+(* and the debt registered for emergency redemption (x/esm's redemption book)                                                                              *)
+P2(i, S) == AllPrincipal(S) + AwaitingPrincipal(i, S, 0) + V1AwaitingPrincipal(S) + EsmDebt(S, Debt)
+P2Pre(i) == AllPrincipal(Pre(Nd(i))) + AwaitingPrincipalPre(i, 0) + V1AwaitingPrincipal(Pre(Nd(i))) + EsmDebt(Pre(Nd(i)), Debt)
 DSupply(nd) == Post(nd).supply[Debt] - Pre(nd).supply[Debt]
 C02Backed(i) == LET nd == Nd(i) IN
    IF IsRoot(nd) THEN Post(nd).supply[Debt] - Post(nd).fixtureMint <= P2(i, Post(nd))
@@ -91,7 +95,11 @@ C03MinRatio(nd) ==
      LET v == VaultOf(S, U(nd), p.id)
          debt == IF nd.a = "Create" THEN v.out ELSE TotalDebt(v)
      IN CRAtLeast(C, S, p, v.in, debt, p.minCr.num, p.minCr.den)
-C03Floor(nd) == \A v \in Range(Post(nd).vaults) : v.out >= ProdOf(Cfg(nd), v.prod).floor
+(* step form: judged on the step that sets a vault's principal (new vault, or principal changed); like the ratio requirement it is *)
+(* demanded outside emergency shutdown (the statement's scope) - vaults re-opened below the floor by a shutdown close-out are counted   *)
+(* in STATS (esmVaultsBelowFloor) as monitored evidence, not judged                                                                        *)
+PrincipalSet(nd) == {v \in Range(Post(nd).vaults) : IsRoot(nd) \/ ~HasVault(Pre(nd), v.id) \/ VaultById(Pre(nd), v.id).out # v.out}
+C03Floor(nd) == ~Pre(nd).ctl.esm => \A v \in PrincipalSet(nd) : v.out >= ProdOf(Cfg(nd), v.prod).floor
 C03Ceiling(nd) == \A p \in Range(Cfg(nd).prods) : OpenMinted(Post(nd), p.id) <= p.ceiling
 C03InactivePrice(nd) ==
    nd.a \in RiskOps /\ HasProd(Cfg(nd), nd.args.p) /\ ~PricesActive(Cfg(nd), Pre(nd), ProdOf(Cfg(nd), nd.args.p)) /\ ~ProdOf(Cfg(nd), nd.args.p).stable
@@ -231,9 +239,10 @@ ConfBlock(nd) == nd.a = "Block" /\ Ok(nd) =>
    LET C == Cfg(nd) S == Pre(nd)
        UU == {v.id : v \in {x \in Range(S.vaults) : Unsafe(C, S, x) /\ Enabled(C, S, x)}}
        r == SweepStep(IdSeq(S), S.offset, C.batch, UU)
-   IN /\ IdSeq(Post(nd)) = r.list
-      /\ Post(nd).offset = r.offset
-      /\ {l.orig : l \in Seized(nd)} = r.seized
+   IN IF S.ctl.esm THEN Seized(nd) = {}       \* under emergency shutdown other hooks of the block re-shape the vault list (redemption, close-outs); the sweep seizes nothing
+      ELSE /\ IdSeq(Post(nd)) = r.list
+           /\ Post(nd).offset = r.offset
+           /\ {l.orig : l \in Seized(nd)} = r.seized
 
 (* the V1 sweep (x/liquidation LiquidateVaults) is the same step of Sweep.tla with its own offset and batch size; it does *)
 (* nothing at all - not even advance the offset - while the breaker or emergency shutdown is on                          *)
@@ -248,6 +257,9 @@ ConfV1Sweep(nd) == nd.a = "V1Sweep" /\ Ok(nd) =>
            /\ {l.orig : l \in V1Seized(S, Post(nd))} = r.seized
 ConfV1Liquidate(nd) == nd.a = "V1Liquidate" /\ ~Cfg(nd).interest /\ ~IsRoot(nd) => V1LiquidateConforms(Cfg(nd), Pre(nd), nd.args, Ok(nd), Post(nd))
 
+ConfV1Bid(nd) == nd.a = "V1Bid" /\ ~IsRoot(nd) /\ (Ok(nd) => nd.args.v \in V1AuctionIds(Pre(nd)) /\ ~OwnBidV1(nd)) => V1BidConforms(Cfg(nd), Pre(nd), nd.args, Ok(nd), Post(nd))
+ConfV1Tick(nd) == nd.a = "V1Tick" /\ ~IsRoot(nd) => V1TickConforms(Cfg(nd), Pre(nd), Ok(nd), Post(nd))
+ConfEsm(nd) == nd.a \in {"EsmDeposit", "EsmExecute"} /\ ~IsRoot(nd) => EsmStepConforms(Cfg(nd), Pre(nd), nd.a, nd.args, Ok(nd), Post(nd))
 ConfVault(nd) == nd.a \in VaultOps /\ ~Cfg(nd).interest /\ ~IsRoot(nd) => VaultStepConforms(Cfg(nd), Pre(nd), nd.a, nd.args, Ok(nd), Post(nd))
 
 Formulas == <<"C01_Custody", "C01_Count", "C01_TotalsColl", "C01_TotalsMinted", "C01_TotalsIds",
@@ -258,7 +270,7 @@ Formulas == <<"C01_Custody", "C01_Count", "C01_TotalsColl", "C01_TotalsMinted", 
               "C10_StartPrice", "C10_CustodyColl", "C10_CustodyDebt", "C10_OwnerGetsRest", "C10_PenaltyRouted", "C10_ExternalProceeds",
               "C02_BurnAtClose_V1", "C09_SeizeExact_V1", "C09_CustodyMoves_V1", "C09_Live_V1",
               "C10_PostedPrice_V1", "C10_BidBooked_V1", "C10_PriceNotAboveStart_V1", "C10_PriceNotBelowEnd_V1", "C10_PriceFloor_V1", "C10_StartPrice_V1", "C10_CustodyColl_V1", "C10_CustodyDebt_V1", "C10_PenaltyRouted_V1",
-              "Conf_Vault", "Conf_Block", "Conf_V1Sweep", "Conf_V1Liquidate">>
+              "Conf_Vault", "Conf_Block", "Conf_V1Sweep", "Conf_V1Liquidate", "Conf_V1Bid", "Conf_V1Tick", "Conf_Esm">>
 Holds(f, i) ==
   LET nd == Nd(i) IN
   CASE f = "C01_Custody" -> C01Custody(nd)
@@ -306,6 +318,9 @@ Holds(f, i) ==
     [] f = "C10_PenaltyRouted_V1" -> C10PenaltyRoutedV1(nd)
     [] f = "Conf_V1Sweep" -> ConfV1Sweep(nd)
     [] f = "Conf_V1Liquidate" -> ConfV1Liquidate(nd)
+    [] f = "Conf_V1Bid" -> ConfV1Bid(nd)
+    [] f = "Conf_V1Tick" -> ConfV1Tick(nd)
+    [] f = "Conf_Esm" -> ConfEsm(nd)
     [] f = "Conf_Vault" -> ConfVault(nd)
     [] f = "Conf_Block" -> ConfBlock(nd)
 
@@ -331,6 +346,20 @@ Stats == PrintT(<<"STATS", [nodes |-> NLog,
    blocks |-> Cnt(LAMBDA nd : nd.a = "Block"),
    longWaits |-> Cardinality({i \in 1..NLog : Nd(i).a = "Block" /\ \E v \in Range(Post(Nd(i)).vaults) : BadBlocks(i, v.id) >= 2}),
    sweepRuns |-> Cnt(LAMBDA nd : IsRoot(nd) /\ nd.run \in {"sweepsim", "sweepadv"}),
+   esmExecuted |-> Cnt(LAMBDA nd : nd.a = "EsmExecute" /\ Ok(nd)),
+   esmSteps |-> Cnt(LAMBDA nd : ~IsRoot(nd) /\ Pre(nd).ctl.esm),
+   esmSnapshots |-> Cnt(LAMBDA nd : nd.st.ev.esmSnap),
+   esmVaultRedemptions |-> Cnt(LAMBDA nd : nd.st.ev.esmVaultRed /\ Len(Pre(nd).vaults) > 0),
+   esmStableRedemptions |-> Cnt(LAMBDA nd : nd.st.ev.esmStableRed /\ Len(Pre(nd).svaults) > 0),
+   esmCollectorBurns |-> Cnt(LAMBDA nd : nd.st.ev.esmCollTx /\ DSupply(nd) < 0),
+   esmV2CloseOuts |-> Cnt(LAMBDA nd : nd.st.ev.v2EsmDue > 0),
+   esmV1CloseOuts |-> Cnt(LAMBDA nd : nd.st.ev.v1EsmDue > 0 /\ Len(Post(nd).auctionsV1) < Len(Pre(nd).auctionsV1)),
+   esmRedemptions |-> Cnt(LAMBDA nd : nd.a = "EsmRedeem" /\ Ok(nd)),
+   esmCoolOffWithdrawals |-> Cnt(LAMBDA nd : nd.a = "Withdraw" /\ Ok(nd) /\ Pre(nd).ctl.esm),
+   esmRejectedMints |-> Cnt(LAMBDA nd : nd.a \in MintOps /\ ~Ok(nd) /\ Pre(nd).ctl.esm),
+   esmVaultsBelowFloor |-> Cnt(LAMBDA nd : Pre(nd).ctl.esm /\ \E v \in PrincipalSet(nd) : v.out < ProdOf(Cfg(nd), v.prod).floor),
+   esmRedemptionsPayingNothing |-> Cnt(LAMBDA nd : nd.a = "EsmRedeem" /\ Ok(nd) /\ RedeemPaysNothing(Pre(nd), Post(nd), U(nd))),
+   esmRedemptionsAboveProRata |-> Cnt(LAMBDA nd : nd.a = "EsmRedeem" /\ Ok(nd) /\ \E d \in CollDenoms : ~RedeemWithinProRata(Pre(nd), Post(nd), U(nd), nd.args.x, d)),
    v1Seizures |-> Cnt(LAMBDA nd : ~IsRoot(nd) /\ V1Seized(Pre(nd), Post(nd)) # {}),
    v1MsgSeizures |-> Cnt(LAMBDA nd : nd.a = "V1Liquidate" /\ V1Seized(Pre(nd), Post(nd)) # {}),
    v1SweepSeizures |-> Cnt(LAMBDA nd : nd.a = "V1Sweep" /\ V1Seized(Pre(nd), Post(nd)) # {}),
